@@ -123,11 +123,11 @@ type QCall struct {
 type QRunner struct {
 	// FirstFailIdx: op log length when a writer call failed for the first time (file full), 0 = never
 	FirstFailIdx int
-	P    *QProgram
-	O    QOpts
-	Disk *simdisk.Disk
-	F    *txfile.File
-	Obsv *StatsObserver
+	P            *QProgram
+	O            QOpts
+	Disk         *simdisk.Disk
+	F            *txfile.File
+	Obsv         *StatsObserver
 
 	Q      *pq.Queue
 	W      *pq.Writer
